@@ -1088,8 +1088,10 @@ class JobStringParameterDefinition(OpenJDModel_v2023_09, JobParameterInterface):
 
     @validator("default")
     def _validate_default(
-        cls, v: ParameterStringValue, values: dict[str, Any]
-    ) -> ParameterStringValue:
+        cls, v: Optional[ParameterStringValue], values: dict[str, Any]
+    ) -> Optional[ParameterStringValue]:
+        if v is None:
+            return v
         min_length = values.get("minLength")
         if min_length is not None:
             if len(v) < min_length:
@@ -1311,8 +1313,10 @@ class JobPathParameterDefinition(OpenJDModel_v2023_09, JobParameterInterface):
 
     @validator("default")
     def _validate_default(
-        cls, v: ParameterStringValue, values: dict[str, Any]
-    ) -> ParameterStringValue:
+        cls, v: Optional[ParameterStringValue], values: dict[str, Any]
+    ) -> Optional[ParameterStringValue]:
+        if v is None:
+            return v
         min_length = values.get("minLength")
         if min_length is not None:
             if len(v) < min_length:
@@ -1528,7 +1532,9 @@ class JobIntParameterDefinition(OpenJDModel_v2023_09):
         return v
 
     @validator("default")
-    def _validate_default(cls, v: int, values: dict[str, Any]) -> int:
+    def _validate_default(cls, v: Optional[int], values: dict[str, Any]) -> Optional[int]:
+        if v is None:
+            return v
         min_value = values.get("minValue")
         if min_value is not None:
             if v < min_value:
@@ -1704,7 +1710,9 @@ class JobFloatParameterDefinition(OpenJDModel_v2023_09):
         return v
 
     @validator("default")
-    def _validate_default(cls, v: Decimal, values: dict[str, Any]) -> Decimal:
+    def _validate_default(cls, v: Optional[Decimal], values: dict[str, Any]) -> Optional[Decimal]:
+        if v is None:
+            return v
         min_value = values.get("minValue")
         if min_value is not None:
             if v < min_value:
